@@ -1,5 +1,6 @@
 (* C16 - A change set accumulates per entity and applies each sum exactly once. *)
-From SV Require Import Base.ListX Store.Masked World.Env World.Join World.JoinProps World.CsProps.
+From SV Require Import Base.ListX Store.Masked World.Env World.Join World.JoinProps World.CsProps World.JoinAbs
+  World.JoinRefine World.JoinAbsProps World.JoinSafe.
 From Coq Require Import Sorting.Sorted.
 
 (* whatever the sequence of pairs: per index, the combination of its amounts in arrival order *)
@@ -67,6 +68,30 @@ Theorem C16_consumed_by_value : forall ms k e, (exists m, In m ms /\ m_taken m =
   cs_get (consume_cs ms e) k = NM.empty Z.
 Proof. exact consume_cs_empties. Qed.
 
+(* joined with storages (any tuple around the change-set member, any keys): the item paired with index j is the amount
+   accumulated for j when the join started - each accumulated amount is paired exactly once, with that entity's row *)
+Theorem C16_each_amount_paired_once_with_its_entity : forall unit av hs excl eids pre post k mode d keys S, NoDup keys ->
+  forallb (fun m => negb (m_cs_owns m k)) pre = true ->
+  forall j xs, In (j, xs) (snd (a_visit_keys unit av hs excl eids (pre ++ MChange k mode d :: post) keys S)) ->
+  nth_error xs (length pre) = Some (JAmt (match cscell S k j with Some a => a | None => 0%Z end)).
+Proof. exact join_pairs_each_accumulated_amount_once. Qed.
+
+(* ... and afterwards: joined mutably, every visited amount is combined with the delta exactly once; joined by value,
+   every visited amount is gone; joined by reference, nothing changes; amounts of other indices are untouched *)
+Theorem C16_change_set_after_a_join : forall unit av hs excl eids pre post k mode d keys S j, NoDup keys ->
+  forallb (fun m => negb (m_cs_owns m k)) pre = true -> forallb (fun m => negb (m_cs_owns m k)) post = true ->
+  cscell (fst (a_visit_keys unit av hs excl eids (pre ++ MChange k mode d :: post) keys S)) k j =
+    if in_dec N.eq_dec j keys
+    then (if N.eqb mode 1 then option_map (fun a => amt_add a d) (cscell S k j) else if N.eqb mode 2 then None else cscell S k j)
+    else cscell S k j.
+Proof. exact join_change_set_cells. Qed.
+
+(* the join on the real storages and change sets refines the join on the maps these theorems speak about *)
+Theorem C16_join_refines_the_join_on_maps : forall unit av hs excl eids ms keys e S, absrel unit e S ->
+  snd (visit_keys av hs excl eids ms keys e) = snd (a_visit_keys unit av hs excl eids ms keys S) /\
+  absrel unit (fst (visit_keys av hs excl eids ms keys e)) (fst (a_visit_keys unit av hs excl eids ms keys S)).
+Proof. exact visit_keys_abs. Qed.
+
 Example C16_nonvacuous :
   let hs := pv_push (pv_push (pv_push pv_empty (0, 1%Z)) (7, 1%Z)) (64, 2%Z) in
   let e := fst (env_csop (env_init false) hs (CsCollect 0 [(1%nat, 32%Z); (2%nat, 12%Z); (1%nat, 13%Z); (2%nat, (-5)%Z); (1%nat, 1%Z)])) in
@@ -90,3 +115,6 @@ Print Assumptions C16_member_of_a_join.
 Print Assumptions C16_each_index_once.
 Print Assumptions C16_item_is_the_accumulated_amount.
 Print Assumptions C16_consumed_by_value.
+Print Assumptions C16_each_amount_paired_once_with_its_entity.
+Print Assumptions C16_change_set_after_a_join.
+Print Assumptions C16_join_refines_the_join_on_maps.
